@@ -75,10 +75,14 @@ def get_convergence_format(epsilon: float, max_decimals: int = 10) -> str:
     if max_decimals <= 0:
         raise ValueError("max_decimals must be positive")
 
+    if epsilon == np.inf:
+        # An infinite threshold (e.g. gamma = 0) is met by any change; one decimal is enough
+        return ".1f"
+
     # Get number of decimal places needed to show changes above epsilon
     # Add 1 to ensure we can see changes until below epsilon
     decimal_places = -int(np.floor(np.log10(epsilon))) + 1
-    # Cap at max_decimals
-    decimal_places = min(decimal_places, max_decimals)
+    # Keep within [0, max_decimals]: thresholds of 100 or more need no decimals
+    decimal_places = max(0, min(decimal_places, max_decimals))
 
     return f".{decimal_places}f"
